@@ -123,7 +123,10 @@ Handles ==       \* handle_data_stream::write: name strings first (while collect
         /\ dir' = Append(dir, [ty |-> 12, off |-> base, len |-> 1 + nhandles]) /\ len' = len + Sum(per) + 1 + nhandles
   /\ pc' = "ret" /\ UNCHANGED <<Keep, memBlocks, crashCtx, softErrs>>
 Return == pc = "ret" /\ pc' = "idle" /\ UNCHANGED <<Keep, len, objs, dir, memBlocks, crashCtx, softErrs>>
-Next == Begin \/ ThreadList \/ Modules \/ AppMem \/ MemList \/ Exception \/ SysInfo \/ BestEffortX \/ Names \/ Handles \/ Return
+(* a hard error at any stage (an unreadable application region, the destination failing): dump() returns Err, whatever the
+   writer has accumulated so far stays in it, and the writer can be asked again *)
+Abort == pc \notin {"idle", "ret"} /\ pc' = "idle" /\ UNCHANGED <<Keep, len, objs, dir, memBlocks, crashCtx, softErrs>>
+Next == Begin \/ ThreadList \/ Modules \/ AppMem \/ MemList \/ Exception \/ SysInfo \/ BestEffortX \/ Names \/ Handles \/ Return \/ Abort
 Spec == Init /\ [][Next]_vars
 
 (* ---- properties, evaluated when a dump returns ---- *)
